@@ -319,6 +319,10 @@ func (w *World) bracketExprAt(pos token.Pos) string {
 						w.brk[x.Lbrack] = types.ExprString(x)
 					case *ast.TypeAssertExpr:
 						w.brk[x.Lparen] = types.ExprString(x)
+					case *ast.CallExpr:
+						if _, dup := w.brk[x.Lparen]; !dup {
+							w.brk[x.Lparen] = types.ExprString(x)
+						}
 					}
 					return true
 				})
